@@ -54,6 +54,9 @@ type c16Plan struct {
 	failAt int // index in the global consultation sequence; -1 = never
 	seq    []string
 	n      int
+	// nested, when set, is run once, from inside the callback, right before the first write to the destination: another
+	// copy that overlaps this one (the functions share a pool of buffers)
+	nested func()
 }
 
 func (p *c16Plan) fn(side string) failfs.FailFunc {
@@ -61,6 +64,11 @@ func (p *c16Plan) fn(side string) failfs.FailFunc {
 		i := p.n
 		p.n++
 		p.seq = append(p.seq, side+":"+fn.String())
+		if p.nested != nil && side == "dst" && fn == avfs.FnFileWrite {
+			f := p.nested
+			p.nested = nil
+			f()
+		}
 		if i == p.failAt {
 			return &fs.PathError{Op: fp.Op, Path: fp.Path, Err: errInjected}
 		}
@@ -100,6 +108,17 @@ func c16Run(c *rt.Ctx, srcKind, dstKind, fnName string, size int, mode fs.FileMo
 		_ = dstBase.Chmod(dstPath, []fs.FileMode{0o600, 0o640, 0o444}[caseNo%3+caseNo%2])
 	}
 	plan = &c16Plan{failAt: failAt}
+	otherContent := bytes.Repeat([]byte{0xEE}, 3000)
+	otherDst := dstBase.Join(dstDir, "other-dst.bin")
+	nestedRan, nestedErr := false, error(nil)
+	if failAt < 0 && caseNo%2 == 0 && !strings.HasPrefix(fnName, "HashFile") {
+		otherSrc := srcBase.Join(srcDir, "other-src.bin")
+		_ = srcBase.WriteFile(otherSrc, otherContent, 0o644)
+		plan.nested = func() {
+			nestedRan = true
+			nestedErr = avfs.CopyFile(dstBase, srcBase, otherDst, otherSrc)
+		}
+	}
 	var srcFS avfs.VFS = srcBase
 	if srcKind == "RoFS(MemFS)" {
 		srcFS = rofs.New(srcBase)
@@ -148,6 +167,13 @@ func c16Run(c *rt.Ctx, srcKind, dstKind, fnName string, size int, mode fs.FileMo
 		c.Disagree(sig+"|panic", fmt.Sprintf("%s panics: %v", fnName, panicked), replay)
 		return plan
 	}
+	if nestedRan {
+		c.Rep.Count("overlapping_copies", 1)
+		if got, rerr := dstBase.ReadFile(otherDst); nestedErr != nil || rerr != nil || !bytes.Equal(got, otherContent) {
+			c.Disagree(sig+"|overlapping-copy-corrupted", fmt.Sprintf("%s %s->%s size %d: a second copy started while the first one was between a read and a write: the second destination holds %d bytes (errors %v / %v), want %d bytes of 0xEE",
+				fnName, srcKind, dstKind, size, len(got), nestedErr, rerr, len(otherContent)), replay)
+		}
+	}
 	if err == nil {
 		// post-condition, read back through the base file systems, never through the wrappers under test
 		if fnName != "HashFile/sha256" {
@@ -185,7 +211,7 @@ func init() {
 		Shards: shards(4, 16),
 		Meta: func(tier string) rt.Meta {
 			return rt.Meta{Level: "fault_enumeration", MinEvals: 300, MinDistinct: 20, Exhaustive: true,
-				Rule:        "for every (function, source fs, destination fs, size, mode) scenario - modes include bits a umask of 022 would clear, and in one scenario in three the destination already exists, longer and with other permission bits -: pass 1 records the sequence of FailFS consultations of an unfailed run and checks the post-condition by reading back through the base file systems; pass 2 re-runs the scenario once per index of that sequence with exactly that consultation failing (exhaustive single-fault enumeration, both sides). A nil error must imply equal bytes, equal permission bits and the right digest; a failure injected into open/read/write/sync/stat/chmod/close(dst) must yield a non-nil error. Signature = function | fs pair | injected primitive | error-or-not; non-trivial = a fault was injected.",
+				Rule:        "for every (function, source fs, destination fs, size, mode) scenario - modes include bits a umask of 022 would clear, and in one scenario in three the destination already exists, longer and with other permission bits -: pass 1 records the sequence of FailFS consultations of an unfailed run and checks the post-condition by reading back through the base file systems; pass 2 re-runs the scenario once per index of that sequence with exactly that consultation failing (exhaustive single-fault enumeration, both sides). A nil error must imply equal bytes, equal permission bits and the right digest; a failure injected into open/read/write/sync/stat/chmod/close(dst) must yield a non-nil error. In half of the unfailed runs a second copy is started from inside the failure callback right before the first write to the destination (two copies overlapping on one goroutine): both destinations must be right. Signature = function | fs pair | injected primitive | error-or-not; non-trivial = a fault was injected.",
 				Assumptions: []string{"a failure of closing the source is not in the property's list: only the post-condition is checked for it", "OsFS legs run in a harness-built directory on tmpfs"}}
 		},
 		Run: func(c *rt.Ctx) {
